@@ -56,7 +56,7 @@ theorem rmData_fail_noop (s : State) (set : String) (d : Ref) (strict : Bool)
 
 theorem rmRes_fail_noop (s : State) (id : String) (hw : WF s) (h : (s.rmRes id).1 = .err) :
     (s.rmRes id).2 = s := by
-  cases hr : s.resolveRes id with
+  cases hr : s.lookupRes id with
   | none => simp [State.rmRes, hr]
   | some rh =>
     have := rmRes_ok s id rh hw.inv hw.lt hr
@@ -64,7 +64,7 @@ theorem rmRes_fail_noop (s : State) (id : String) (hw : WF s) (h : (s.rmRes id).
 
 theorem rmSet_fail_noop (s : State) (id : String) (hw : WF s) (h : (s.rmSet id).1 = .err) :
     (s.rmSet id).2 = s := by
-  cases hr : s.resolveSet id with
+  cases hr : s.lookupSet id with
   | none => simp [State.rmSet, hr]
   | some sh =>
     have := rmSet_ok s id sh hw.inv hw.lt hr
